@@ -457,6 +457,8 @@ class ConfProfile:
         steps = []
         for n, t in enumerate(trees):
             steps.append({"op": "load", "tree": t, "layout": rnd.randrange(1 << 30)})
+            if n and rnd.random() < 0.1:
+                steps[-1]["short"] = rnd.choice([1, -1]) * rnd.randrange(1 << 16)
             if rnd.random() < 0.3:
                 steps.append({"op": "load", "tree": copy.deepcopy(t), "layout": steps[-1]["layout"] if rnd.random() < 0.5 else rnd.randrange(1 << 30), "same": True})
             p_dmg = 0.8 if prop == "C14" else 0.15
@@ -548,8 +550,29 @@ class ConfProfile:
                         with open(conf, "w", encoding="latin1") as f:
                             f.write(text)
                         before = model.expected() if model.file is not None else None
+                        if s.get("short") is not None:
+                            # the first read of the file returns a short count (no error, no end of file)
+                            raw = text.encode("latin1")
+                            tops = [i + 1 for i in range(len(raw) - 1) if raw[i:i + 1] == b"\n" and raw[i + 1:i + 2] not in (b" ", b"\t", b"\n", b"}", b")")]
+                            k = s["short"]
+                            if tops and k >= 0:
+                                b = tops[k % len(tops)]
+                                nshort = b if (k // len(tops)) % 2 == 0 else len(raw) - b
+                            else:
+                                nshort = 1 + abs(k) % max(1, len(raw) - 1)
+                            h.freadshort(max(1, nshort))
+                            res.extra["loads_with_a_short_read"] = res.extra.get("loads_with_a_short_read", 0) + 1
                         rep = h.sig("USR1")
                         res.transcript.append(("load", text, rep.notes))
+                        if "CONFREAD 0" not in rep.notes and s.get("short") is not None and any(n.startswith("CONFREAD") for n in rep.notes):
+                            # giving up on a short read is the daemon's right: then nothing may have changed
+                            res.extra["short_read_loads_rejected"] = res.extra.get("short_read_loads_rejected", 0) + 1
+                            if hook_paths(rep.notes):
+                                viol.append(Violation(("C14",), "failed-load-notifies", "a load that reported an error (short read) delivered change "
+                                                      "notifications %s" % sorted(hook_paths(rep.notes))))
+                            if model.file is not None:
+                                dumpcmp("after load %d, which failed on a short read" % nstep)
+                            continue
                         if "CONFREAD 0" not in rep.notes:
                             res.extra["valid_file_rejected"] += 1
                             break
